@@ -5,6 +5,7 @@ package gomatrixserverlib
 import (
 	"context"
 	"fmt"
+	"time"
 
 	"pgregory.net/rapid"
 )
@@ -144,6 +145,24 @@ func c04Check(ctx *vfCtx, c c04Case) {
 		if len(ev.Unsigned()) != 0 {
 			ctx.Fail("C04/unsigned-observable", "content hash mismatch: Unsigned() = %q", ev.Unsigned())
 		}
+		// every other accessor must reflect the redacted form too
+		var redacts string
+		var sticky bool
+		var stickyEnd time.Time
+		now := time.UnixMilli(int64(ev.OriginServerTS()) + 1000)
+		if vfCatch(ctx, "C04", func() {
+			redacts = ev.Redacts()
+			sticky = ev.IsSticky(now, now)
+			stickyEnd = ev.StickyEndTime(now)
+		}) {
+			return
+		}
+		if _, kept := want.get("redacts"); !kept && redacts != "" {
+			ctx.Fail("C04/stripped-key-observable/redacts", "content hash mismatch: Redacts() = %q although the top-level redacts key is not in the redacted form %q", redacts, ev.JSON())
+		}
+		if sticky || !stickyEnd.IsZero() {
+			ctx.Fail("C04/stripped-key-observable/sticky", "content hash mismatch: IsSticky() = %v, StickyEndTime() = %v although no sticky key is in the redacted form", sticky, stickyEnd)
+		}
 	}
 	if len(ev.Unsigned()) != 0 {
 		ctx.Fail("C04/unsigned-not-stripped", "Unsigned() = %q on an untrusted event (unsigned is stripped on receipt)", ev.Unsigned())
@@ -217,8 +236,10 @@ func c04Gen(t *rapid.T) c04Case {
 			}
 			tm.Key = ct.O[rapid.IntRange(0, len(ct.O)-1).Draw(t, "cdel")].Key
 		case "top_set":
-			tm.Key = rapid.SampledFrom([]string{"unsigned", "age_ts", "outlier", "destinations", "event_id", "foo", "origin", "membership", "prev_state", "redacts", "depth", "origin_server_ts"}).Draw(t, "tkey")
+			tm.Key = rapid.SampledFrom([]string{"unsigned", "age_ts", "outlier", "destinations", "event_id", "foo", "origin", "membership", "prev_state", "redacts", "redacts", "sticky", "msc4354_sticky", "depth", "origin_server_ts"}).Draw(t, "tkey")
 			switch tm.Key {
+			case "sticky", "msc4354_sticky":
+				tm.Value = vfBytes(`{"duration_ms":600000}`)
 			case "redacts":
 				tm.Value = vfBytes(`"$x:y"`)
 			case "depth", "origin_server_ts", "age_ts":
